@@ -1,7 +1,16 @@
-(* C07 — slashing of pending unbondings is exact, single and scoped. *)
+(* C07 — slashing of pending unbondings is exact, single and scoped.
+   Main theorem (unbonding half): in EVERY reachable state, when the slash callback returns
+   normally, every bucket of the unbonding queue is the entry-wise image of the abstract slash:
+   each pending entry of the slashed validator that has not matured loses exactly
+   floor(f x balance), once; entries of other validators, in other buckets, or matured, are
+   unchanged, and the per-validator index is untouched.  It rests on the invariant
+   (Proofs/IndexSync.v, all histories) that every pending entry has its index key.
+   The fee-collector amount and the redelegation half are not theorems (partial): check_C07
+   evaluates them on implementation traces. *)
 From Coq Require Import ZArith List Bool Lia.
 From Alliance Require Import Num KMap Types Monad Model Step Spec Hoare WitnessLib.
 From Alliance.Witness Require Import F_C07_bucket.
+From Alliance.Proofs Require Import IndexSync SlashQueue.
 Import ListNotations.
 Open Scope Z_scope.
 
@@ -12,6 +21,22 @@ Open Scope Z_scope.
 Example C07_fixed_shared_bucket : witness_fails 7 1 ops_F_C07_bucket = false /\ witness_fails 7 2 ops_F_C07_bucket = false.
 Proof. vm_compute. split; reflexivity. Qed.
 Print Assumptions C07_fixed_shared_bucket.
+
+Theorem C07_unbondings_slashed_exactly_once : forall h v f, let s := run init_state h in
+  match hook_slash v f s with
+  | Ok _ s' => forall ct dl l, kget (undelq s) [ct; dl] = Some l ->
+                 kget (undelq s') [ct; dl] = Some (map (slash_entry_spec v f (now s) ct) l)
+  | _ => True
+  end.
+Proof. exact slash_callback_exact_on_unbondings. Qed.
+Print Assumptions C07_unbondings_slashed_exactly_once.
+
+(* every pending entry sits in the bucket of its own delegator and has its per-validator index key *)
+Theorem C07_every_pending_entry_is_indexed : forall h ct dl l u,
+  kget (undelq (run init_state h)) [ct; dl] = Some l -> In u l ->
+  u_del u = dl /\ kget (undelidx (run init_state h)) [u_val u; ct; u_denom u; dl] = Some tt.
+Proof. exact index_sync. Qed.
+Print Assumptions C07_every_pending_entry_is_indexed.
 
 (* the abstract slash of one entry removes exactly floor(f * balance) (f a 10^18-scaled
    fraction in (0,1]) and leaves foreign and matured entries untouched *)
